@@ -131,7 +131,7 @@ def run(chk, tier):
     chk.extra["formats_recording_the_directory"] = sorted(runner.paths_recorded)
     chk.extra["wall_compile_s"] = round(t_run, 1)
     chk.extra["wall_tlc_trace_s"] = round(t_tlc, 1)
-    chk.extra["slowest_runs_s"] = [[g, c, round(t, 1)] for (g, c), t in sorted(runner.durations.items(), key=lambda kv: -kv[1])[:6]]
+    chk.extra["slowest_runs_s"] = [list(k) + [round(t, 1)] for k, t in sorted(runner.durations.items(), key=lambda kv: -kv[1])[:6]]
     diag = sum(1 for k, v in by_input.items() if k.endswith("|msg") and len({tuple(e["digest"]) for _, e in v}) >= 1
                and any(i.name == k.split("|")[0] and ("gb_" in i.name or "err" in gid_of[i.name].gid) for g in groups for i in g.inputs))
     chk.extra["inputs_with_planted_errors"] = diag
